@@ -183,6 +183,15 @@ func c03run(env *core.Env, idx int) core.CaseResult {
 		return res
 	}
 	cands := fsx.Candidates(fsx.Names, 3)
+	if sub.viewTop {
+		// the invariant is evaluated on the parent: the view's names lie one or two levels deeper there
+		top := map[string]string{"sub(memc,a)": "a", "sub(mount,a)": "a", "sub(sub(memc,a),b)": "a/b"}[sname]
+		for _, c := range fsx.Candidates(fsx.Names, 3) {
+			if c != "." {
+				cands = append(cands, top+"/"+c)
+			}
+		}
+	}
 	var gen *fsx.Gen
 	nsteps := len(cs.Hist)
 	if random {
